@@ -315,6 +315,7 @@ def _membrane(case, out, clock, mod):
     if case.get("decoy"):
         _decoys.membrane(case["decoy"], mod, [op_[1] for op_ in case["ops"] if op_[0] == "filter" and isinstance(op_[1], str)])
         out.label("decoy")
+        _decoys.note(out)
     builtin = [([s.is_regex, s.pattern], s.level.value) for s in mod.Membrane.INNATE_SIGNATURES]
     active_fixed = builtin + [(p, l) for p, l in case["custom"]]
     learned = {}              # pattern text -> (pat, level)
@@ -523,6 +524,7 @@ def _innate(case, out, clock, mod):
     if case.get("decoy"):
         _decoys.innate(case["decoy"], mod, [op_[1] for op_ in case["ops"] if op_[0] in ("check", "filter") and isinstance(op_[1], str)])
         out.label("decoy")
+        _decoys.note(out)
     active = [([p.is_regex, p.pattern], p.severity) for p in mod.InnateImmunity.DEFAULT_PATTERNS] + [(p, s) for p, s in case["custom"]]
     thr = case["threshold"]
     out.label("innate")
